@@ -457,7 +457,7 @@ class AbstractExcelInPython(ABC):
 
     def _left(self, text, num_chars):
         if num_chars is None:
-            return text[0]
+            return text[0:1]
         if num_chars < 0:
             return '#ERROR!'
         if not text:
@@ -626,7 +626,7 @@ class AbstractExcelInPython(ABC):
 
     def _right(self, text, num_chars):
         if num_chars is None:
-            return text[len(text) - 1]
+            return text[-1:]
         if num_chars < 0:
             return '#ERROR!'
         if not text:
